@@ -484,7 +484,49 @@ func c01R2(p *core.Prog, r *core.Report) (verifiers map[*ssa.Function]bool) {
 		}
 		return bo, (taken == 0) == pol, true
 	}
-	isCounter := func(v ssa.Value) bool { return isField(v, "readBytes") }
+	// the byte counter, by what Read does with it: the field that is stored `field + n` where n is the
+	// count returned by the underlying Read (its name today: readBytes)
+	counterNames := map[string]bool{"readBytes": true}
+	for _, rf := range sortedFuncs(core.Helpers(fn, 2)) {
+		for _, b := range rf.Blocks {
+			for _, in := range b.Instrs {
+				st, ok := in.(*ssa.Store)
+				if !ok {
+					continue
+				}
+				fa, ok := st.Addr.(*ssa.FieldAddr)
+				if !ok {
+					continue
+				}
+				bo, ok := st.Val.(*ssa.BinOp)
+				if !ok || bo.Op != token.ADD {
+					continue
+				}
+				fromRead := false
+				for _, side := range []ssa.Value{bo.X, bo.Y} {
+					if cv, isConv := side.(*ssa.Convert); isConv {
+						side = cv.X
+					}
+					for _, oc := range originCalls(side) {
+						if oc.Call.IsInvoke() && oc.Call.Method.Name() == "Read" {
+							fromRead = true
+						}
+					}
+				}
+				if fromRead {
+					counterNames[core.FieldName(fa.X.Type(), fa.Field)] = true
+				}
+			}
+		}
+	}
+	isCounter := func(v ssa.Value) bool {
+		for name := range counterNames {
+			if isField(v, name) {
+				return true
+			}
+		}
+		return false
+	}
 	isSize := func(v ssa.Value) bool { return isField(v, "Size") }
 	// One way through the EOF handling: what was compared, whether a mismatch edge was taken, and what
 	// the returned error is (fresh, or the value of parameter pass of the function the path is in).
@@ -869,30 +911,89 @@ func c01R4(p *core.Prog, r *core.Report) {
 		return
 	}
 	fname := p.FuncName(seek)
-	// fields that must be reset: digester, reader (by type), and every direct field of BReader stored in Read
-	must := map[string]string{}
-	st := br.Underlying().(*types.Struct)
-	for i := 0; i < st.NumFields(); i++ {
-		f := st.Field(i)
-		if core.IsNamed(f.Type(), "github.com/opencontainers/go-digest", "Digester") {
-			must[f.Name()] = "the digester"
+	// state is named by its access path below the reader ("digester", or "pass.digester" when the
+	// per-pass state lives in a nested struct); a store to a prefix of a path (the whole nested struct)
+	// stores everything below it
+	pathOf := func(addr ssa.Value) (string, bool) {
+		var parts []string
+		for {
+			fa, ok := addr.(*ssa.FieldAddr)
+			if !ok {
+				break
+			}
+			parts = append([]string{core.FieldName(fa.X.Type(), fa.Field)}, parts...)
+			addr = fa.X
 		}
+		if len(parts) == 0 || core.NamedOf(addr.Type()) != br {
+			return "", false
+		}
+		return strings.Join(parts, "."), true
 	}
-	// the verifying reader: the field Read reads from
-	core.Calls(read, func(c ssa.CallInstruction) {
-		if isInvoke(c, "Read") {
-			if u, ok := c.Common().Value.(*ssa.UnOp); ok {
-				if fa, ok := u.X.(*ssa.FieldAddr); ok {
-					must[core.FieldName(fa.X.Type(), fa.Field)] = "the verifying reader"
+	// fields that must be reset: digester, reader (by type), and every field below BReader stored in Read
+	must := map[string]string{}
+	var walkT func(t types.Type, prefix string, d int)
+	walkT = func(t types.Type, prefix string, d int) {
+		st, ok := t.Underlying().(*types.Struct)
+		if !ok || d > 2 {
+			return
+		}
+		for i := 0; i < st.NumFields(); i++ {
+			f := st.Field(i)
+			if core.IsNamed(f.Type(), "github.com/opencontainers/go-digest", "Digester") {
+				must[prefix+f.Name()] = "the digester"
+			} else if _, isPtr := f.Type().(*types.Pointer); !isPtr {
+				if nt, isNamed := f.Type().(*types.Named); isNamed && nt.Obj().Pkg() != nil && nt.Obj().Pkg().Path() == modPath("types/blob") {
+					walkT(f.Type(), prefix+f.Name()+".", d+1)
 				}
 			}
 		}
-	})
-	for _, fs := range fieldStores([]*ssa.Function{read}, func(n *types.Named, f string) bool { return n == br }) {
-		_, f := core.FieldAddrInfo(fs.Addr)
-		if must[f] == "" {
-			must[f] = "state written by Read"
+	}
+	walkT(br, "", 0)
+	readUnit := core.Helpers(read, 2)
+	// the verifying reader: the field Read reads from
+	for _, rf := range sortedFuncs(readUnit) {
+		core.Calls(rf, func(c ssa.CallInstruction) {
+			if isInvoke(c, "Read") {
+				if u, ok := c.Common().Value.(*ssa.UnOp); ok {
+					if pth, ok := pathOf(u.X); ok {
+						must[pth] = "the verifying reader"
+					}
+				}
+			}
+		})
+		for _, b := range rf.Blocks {
+			for _, in := range b.Instrs {
+				if st, ok := in.(*ssa.Store); ok {
+					if pth, ok := pathOf(st.Addr); ok && must[pth] == "" && !embeddedRoot(br, pth) {
+						must[pth] = "state written by Read"
+					}
+				}
+			}
 		}
+	}
+	// a helper of Seek that stores a path (or a prefix of it) counts as that store at its call site
+	seekUnit := core.Helpers(seek, 2)
+	storesPath := func(in ssa.Instruction, f string) bool {
+		covers := func(pth string) bool { return pth == f || strings.HasPrefix(f, pth+".") }
+		if s, ok := in.(*ssa.Store); ok {
+			if pth, ok := pathOf(s.Addr); ok && covers(pth) {
+				return true
+			}
+		}
+		if c, ok := in.(ssa.CallInstruction); ok {
+			if h := core.CalleeFn(c); h != nil && h != seek && seekUnit[h] {
+				for _, hb := range h.Blocks {
+					for _, hin := range hb.Instrs {
+						if s, ok := hin.(*ssa.Store); ok {
+							if pth, ok := pathOf(s.Addr); ok && covers(pth) {
+								return true
+							}
+						}
+					}
+				}
+			}
+		}
+		return false
 	}
 	// the underlying seek
 	var under ssa.Instruction
@@ -907,18 +1008,7 @@ func c01R4(p *core.Prog, r *core.Report) {
 	}
 	for f, why := range must {
 		f := f
-		stop := func(in ssa.Instruction) bool {
-			s, ok := in.(*ssa.Store)
-			if !ok {
-				return false
-			}
-			fa, ok := s.Addr.(*ssa.FieldAddr)
-			if !ok {
-				return false
-			}
-			n, name := core.FieldAddrInfo(fa)
-			return n == br && name == f
-		}
+		stop := func(in ssa.Instruction) bool { return storesPath(in, f) }
 		bad := ""
 		// a rewind that did not land on offset 0 is not a rewind: returns behind the `o != 0` edge of
 		// the underlying Seek's own result are outside the rule
@@ -964,9 +1054,39 @@ func c01R4(p *core.Prog, r *core.Report) {
 	}
 	// the new reader tees into the new digester
 	teeOK := false
-	helpers := core.Helpers(seek, 2)
-	for _, fs := range fieldStores([]*ssa.Function{seek}, func(n *types.Named, f string) bool { return n == br && must[f] == "the verifying reader" }) {
-		for _, o := range core.Origins(fs.Store.Val, core.SliceOpts{Helpers: helpers}) {
+	helpers := seekUnit
+	var readerVals []ssa.Value
+	for _, sf := range sortedFuncs(seekUnit) {
+		for _, b := range sf.Blocks {
+			for _, in := range b.Instrs {
+				st, ok := in.(*ssa.Store)
+				if !ok {
+					continue
+				}
+				pth, ok := pathOf(st.Addr)
+				if !ok {
+					continue
+				}
+				if must[pth] == "the verifying reader" {
+					readerVals = append(readerVals, st.Val)
+				}
+				// a whole-struct store: the value of the reader field inside the stored struct
+				for mp, why := range must {
+					if why == "the verifying reader" && strings.HasPrefix(mp, pth+".") {
+						for _, o := range core.Origins(st.Val, core.SliceOpts{Helpers: helpers}) {
+							if al, isAl := o.Val.(*ssa.Alloc); isAl {
+								for _, fs2 := range core.StoresToCellFields(al) {
+									readerVals = append(readerVals, fs2)
+								}
+							}
+						}
+					}
+				}
+			}
+		}
+	}
+	for _, rv := range readerVals {
+		for _, o := range core.Origins(rv, core.SliceOpts{Helpers: helpers}) {
 			if o.Kind != core.OCall {
 				continue
 			}
@@ -1206,8 +1326,19 @@ func c01R8(p *core.Prog, r *core.Report, verifiers map[*ssa.Function]bool) {
 				continue
 			case *ssa.UnOp:
 				if x.Op == token.MUL {
-					if fa, ok := x.X.(*ssa.FieldAddr); ok && core.FieldName(fa.X.Type(), fa.Field) == "reader" && core.IsModNamed(fa.X.Type(), "types/blob", "BReader") {
-						return true
+					if fa, ok := x.X.(*ssa.FieldAddr); ok && core.FieldName(fa.X.Type(), fa.Field) == "reader" {
+						// directly in the reader, or in a per-pass struct nested in it
+						root := fa.X
+						for d := 0; d < 3; d++ {
+							if core.IsModNamed(root.Type(), "types/blob", "BReader") {
+								return true
+							}
+							up, isFA := root.(*ssa.FieldAddr)
+							if !isFA {
+								break
+							}
+							root = up.X
+						}
 					}
 				}
 			}
@@ -1413,4 +1544,23 @@ func c01R12(p *core.Prog, r *core.Report) {
 	if n == 0 {
 		r.Held(rule, "module", "end of the archive", "", "no archive walk matches the end of the stream with errors.Is")
 	}
+}
+
+// embeddedRoot: the first element of the access path is an embedded field of the struct (the common
+// part of a blob: descriptor, reference — what Read learns about the blob is not per-pass state).
+func embeddedRoot(n *types.Named, pth string) bool {
+	st, ok := n.Underlying().(*types.Struct)
+	if !ok {
+		return false
+	}
+	root := pth
+	if i := strings.Index(pth, "."); i >= 0 {
+		root = pth[:i]
+	}
+	for i := 0; i < st.NumFields(); i++ {
+		if f := st.Field(i); f.Name() == root && f.Embedded() {
+			return true
+		}
+	}
+	return false
 }
